@@ -40,18 +40,39 @@ def _lattice_cases(maxlen, top, maxq):
 def _float_cases(rng, n):
     for _ in range(n):
         m = rng.randint(1, 12)
-        xs = sorted({rng.uniform(-100, 100) if rng.random() < 0.7 else float(rng.randint(-20, 20)) for _ in range(m)})
+        if rng.random() < 0.25:
+            # a time axis: readings of one sign, within a factor of two of each other (seconds of a day late in the day,
+            # epoch seconds), not on any lattice
+            base = rng.choice([86400.0, 1.7e9, 3600.0, 1.0])
+            xs = sorted({base * rng.uniform(1.0, 1.9) for _ in range(m)})
+        else:
+            xs = sorted({rng.uniform(-100, 100) if rng.random() < 0.7 else float(rng.randint(-20, 20)) for _ in range(m)})
         qs = []
         for _ in range(rng.randint(1, 10)):
             r = rng.random()
             e = rng.choice(xs)
-            if r < 0.25:
+            if r < 0.2:
                 qs.append(e)
-            elif r < 0.4:
+            elif r < 0.32:
                 qs.append(math.nextafter(e, math.inf))
-            elif r < 0.55:
+            elif r < 0.44:
                 qs.append(math.nextafter(e, -math.inf))
-            elif r < 0.85:
+            elif r < 0.64 and len(xs) >= 2:
+                # the double nearest to the middle of two neighbours, and the doubles next to it: the true middle is in
+                # general not a double, so "nearest, ties to the lower" is decided by half an ulp there
+                i = rng.randrange(len(xs) - 1)
+                mid = (xs[i] + xs[i + 1]) / 2
+                qv = rng.choice([mid, mid, math.nextafter(mid, math.inf), math.nextafter(mid, -math.inf)])
+                # only where the two distances the scan compares are themselves doubles (neighbours of one sign within a
+                # factor of two of each other - time axes): there the code's comparison is the exact one.  Elsewhere the
+                # two rounded distances can coincide although the exact ones differ by a fraction of an ulp; which
+                # neighbour is returned then is a matter of rounding, outside the exact model (DESIGN 3.1)
+                if (Fraction(qv) - Fraction(xs[i]) == Fraction(qv - xs[i])
+                        and Fraction(xs[i + 1]) - Fraction(qv) == Fraction(xs[i + 1] - qv)):
+                    qs.append(qv)
+                else:
+                    qs.append(rng.uniform(xs[0] - 5, xs[-1] + 5))
+            elif r < 0.88:
                 qs.append(rng.uniform(xs[0] - 5, xs[-1] + 5))
             else:
                 qs.append(rng.choice([xs[0] - 1.5, xs[-1] + 2.5]))
